@@ -189,12 +189,18 @@ def run_script_with_cache(filename, execer, glb=None, loc=None, mode="exec"):
     return run_compiled_code(ccode, glb, loc, mode)
 
 
-def code_cache_name(code):
+def code_cache_name(code, mode="exec"):
     """
     Return an appropriate spoofed filename for the given code.
+
+    The compilation mode is part of the name: a code object compiled for
+    ``exec`` (a script on stdin) does not echo expression values the way the
+    ``single`` mode of ``-c`` does, so the two must not share an entry.
     """
     if isinstance(code, str):
         code = code.encode()
+    if mode != "exec":
+        code = mode.encode() + b"\0" + code
     # usedforsecurity=False: allow md5 on FIPS-enabled systems
     return hashlib.md5(code, usedforsecurity=False).hexdigest()
 
@@ -232,7 +238,7 @@ def run_code_with_cache(
     See run_compiled_code for the return value.
     """
     use_cache = should_use_cache(execer, mode)
-    filename = code_cache_name(code)
+    filename = code_cache_name(code, mode)
     cachefname = get_cache_filename(filename, code=True)
     run_cached = False
     if use_cache:
